@@ -173,8 +173,10 @@ theorem addModelT_panic (s : Scene) (hr : Representable s = true) (w : W) (md : 
   split at h
   · rename_i m hm
     by_cases hk : m.topo ≤ 5
-    · simp only [PMesh.topoKnown, hk, decide_true, if_true] at h
-      exact Or.inr (addModel_badId s hr w md hmd (hl _ h))
+    · simp only [PMesh.topoKnown, hk, decide_true, Bool.not_true, Bool.false_eq_true, if_false] at h
+      split at h
+      · cases h
+      · exact Or.inr (addModel_badId s hr w md hmd (hl _ h))
     · exact Or.inl ⟨m, hm, by omega⟩
   · exact Or.inr (addModel_badId s hr w md hmd (hl _ h))
 
